@@ -422,7 +422,7 @@ def run(tier, seed):
     for (f, a), r in zip(jobs, rs):
         for d in r.get():
             run.add_verdicts([report.Verdict(d["name"], d["status"], "sympy-%s (together/expand)" % sp.__version__, d["seconds"], "post", FR, d["detail"])])
-    ev, cf = report.guarded(run, float_coupled, seed, 4 if tier == "quick" else 60)
+    ev, cf = report.guarded(run, float_coupled, seed, 4 if tier == "quick" else 300)
     run.bounded.append(dict(name="float: ntfl(calcAM(source), calcAM(load), free acceleration) vs a direct solve of the physically coupled system "
                                  "(random free-free chains, 2 interface DOF in arbitrary order, recovery-matrix form, default solver construction)",
                             evaluations=ev, failures=0 if cf is None else 1, label="bounded (never counted as proved)"))
